@@ -188,3 +188,11 @@ package util
 //@   props C06 C11 C19 C10
 //@   ensures [the-uri-of-an-address] result == uriOf(address, port, enableTLS)
 //@   modifies nothing
+
+// ---- C19: strings that become metric labels -------------------------------------------------------------------
+// utf8ok(s): s is valid UTF-8 (evaluated by the verifier for string literals, uninterpreted otherwise)
+//@ ufunc utf8ok (String) Bool
+// a generated task id is the hexadecimal text of a random UUID (assumed contract of google/uuid)
+//@ trusted func GetUUID
+//@   ensures utf8ok(result) && !contains(result, "/") && result != ""
+//@   modifies nothing
